@@ -115,6 +115,28 @@
 (*   RejectDrops = TRUE (a setter removes the old value before the new one  *)
 (*        is validated)      doc -> RoundTrip (the field is gone: strict    *)
 (*        Load fails / the comment is lost)                                 *)
+(* CALLS THE FORMAT DOES NOT SETTLE (MayReject).  A value that contains a   *)
+(* look-alike of white space which is NOT white space of the format (NO-    *)
+(* BREAK SPACE, EM SPACE, IDEOGRAPHIC SPACE, U+001F ...; also full-width     *)
+(* commas and other separator look-alikes) inside a pattern, an entry, a    *)
+(* single-line value, a synopsis: the statement does not say whether the    *)
+(* API takes it.  Such words carry ids >= MayBase.  The law is: the call is *)
+(* REFUSED AND NOTHING CHANGED, OR it is carried out and the value is ONE    *)
+(* opaque word / line of the document from then on (so RoundTrip and Stable *)
+(* speak about it).  Which of the two happened is the implementation's      *)
+(* choice: the field acc of the call record (model checking enumerates both *)
+(* outcomes inside the build histories and the edits; a recorded call has    *)
+(* acc = it did not raise).  Rejects(D, e) = refused for sure, or MayReject *)
+(* and ~acc.                                                                *)
+(*   MayAcceptedSplits = TRUE (the validator lets such a pattern through,    *)
+(*        the reader still splits at it)   doc -> RoundTrip                 *)
+(* FAULTS OF CALLER-SUPPLIED OBJECTS (kind "fault": an iterable of patterns *)
+(* / entries that raises after some items, a file object whose write()      *)
+(* raises during dump(f), a file object / iterator whose read raises or     *)
+(* ends early during Copyright(f)): the caller's exception comes out and    *)
+(* the document is as it was (Rejects = TRUE, ApplyCall = D) -- and every   *)
+(* later call, dump and parse behaves as if the faulted call had not been   *)
+(* made (they are ordinary steps of the histories: more calls follow).      *)
 (* Not modelled: the characters inside a payload (sampled by the harness), *)
 (* trailing white space, comments, PGP armor (spec/Deb822Reader.tla).      *)
 (***************************************************************************)
@@ -133,6 +155,7 @@ CONSTANTS Mode,            \* "codec" | "doc" | "trace"
           StaleDump, LicMemoBySynopsis, ParseMemoAliased,  \* negative controls: state kept between calls
           CommaSeparates,  \* negative control: separator look-alikes at the edge of a word are cut off
           RejectDrops,     \* negative control: a rejected assignment removes the old value
+          MayAcceptedSplits, \* negative control: an accepted pattern with a white-space look-alike is split by the reader
           RejAt,           \* doc: history lengths at which ONE rejected call is made ({}: none)
           RejThen,         \* doc: longest history that goes on after a rejected call
           RejEditAt        \* doc: document lengths whose edits include rejected calls
@@ -211,12 +234,20 @@ Unsplittable(v) == \A i \in 2..Len(v) : ~Blank(v[i])
 SpaceTo(pats)  == <<Ln(0, "txt", pats)>>                                  \* ' '.join
 WordsOf(x)     == IF x.b = "txt" THEN x.id ELSE IF x.b = "dot" THEN <<DotWord>> ELSE <<>>
 \* shape of a word of the model (payload id Code(k, f, j), f = 1: pattern): by j
-IsPatCode(w)   == w >= 1000 /\ (w \div 100) % 10 = 1
+IsPatCode(w)   == w >= 1000 /\ w < 500000 /\ (w \div 100) % 10 = 1
 WShape(w)      == IF ~IsPatCode(w) \/ (w % 100) % 3 = 1 THEN "plain" ELSE IF (w % 100) % 3 = 2 THEN "edge" ELSE "punct"
 \* negative control: a reader that takes separator look-alikes for separators
 LegacyWord(w)  == IF WShape(w) = "edge" THEN <<w + 50>> ELSE IF WShape(w) = "punct" THEN <<>> ELSE <<w>>
+\* words whose acceptance the format does not settle (they contain a look-alike of white space): ids >= MayBase
+MayBase        == 500000
+IsMayWord(w)   == w >= MayBase
+HasMay(ws)     == \E j \in 1..Len(ws) : IsMayWord(ws[j])
+MayText(v)     == \E i \in 1..Len(v) : HasMay(v[i].id)
+\* negative control: a reader that splits at the look-alike (the two halves are other words)
+SplitWord(w)   == IF IsMayWord(w) THEN <<w + 1000000, w + 2000000>> ELSE <<w>>
 SpaceFrom(v)   == LET ws == Flat([i \in 1..Len(v) |-> WordsOf(v[i])])    \* s.split()
-                  IN IF CommaSeparates THEN Flat([i \in 1..Len(ws) |-> LegacyWord(ws[i])]) ELSE ws
+                  IN IF CommaSeparates THEN Flat([i \in 1..Len(ws) |-> LegacyWord(ws[i])])
+                     ELSE IF MayAcceptedSplits THEN Flat([i \in 1..Len(ws) |-> SplitWord(ws[i])]) ELSE ws
 
 LineTo(es)     == IF Len(es) = 1 THEN <<Ln(0, "txt", es[1])>>             \* _LineBased.to_str (es # <<>>)
                   ELSE <<EmptyLn>> \o [i \in 1..Len(es) |-> Ln(1, "txt", es[i])]
@@ -355,8 +386,13 @@ Build(ops) == FoldLeft(AddPara, <<>>, ops)
 \*   wrongadd  f                                add_files_paragraph(<not a FilesParagraph>) (f = "Files"),
 \*                                              add_license_paragraph(<a FilesParagraph>) ("License"), header = <a paragraph> ("Header")
 \*   add       para, at                         add_files_paragraph / add_license_paragraph
+\*   fault     f                                a call whose caller-supplied object fails: p.files = <iterable that raises>
+\*                                              (f = "Files"), h.<line-based field> = <iterable that raises> (f = its name),
+\*                                              dump(<file object whose write raises>) ("dump"), Copyright(<file object /
+\*                                              iterator that raises or ends early>) ("parse")
+\* acc: the implementation's choice for a call the format does not settle (MayReject): TRUE = carried out
 EditRec(kind, i, at, f, pats, copy, lic, para) ==
-   [kind |-> kind, i |-> i, at |-> at, f |-> f, pats |-> pats, copy |-> copy, lic |-> lic, para |-> para]
+   [kind |-> kind, i |-> i, at |-> at, f |-> f, pats |-> pats, copy |-> copy, lic |-> lic, para |-> para, acc |-> FALSE]
 
 \* words no list converter accepts: 0 = the empty string, -2 = a string containing a separator (white
 \* space in a pattern, a newline in an entry of a line-based list)
@@ -372,8 +408,8 @@ Restricted(tk) == CASE tk = "Files"   -> {"Files", "Copyright", "License", "Comm
 TKind(D, e)   == IF e.i = 0 THEN "Header" ELSE D.paras[e.i].kind
 ExtraOf(D, e) == IF e.i = 0 THEN D.hdr.extra ELSE D.paras[e.i].extra
 HasKey(fs, k) == \E j \in 1..Len(fs) : fs[j].k = k
-\* the calls the API refuses (they raise; which exception: RejectExc, diagnostic)
-Rejects(D, e) ==
+\* the calls the API refuses for sure (they raise; which exception: RejectExc, diagnostic)
+DefRejects(D, e) ==
    CASE e.kind = "files"    -> BadList(e.pats)
      [] e.kind = "copy"     -> ~Accepts(e.copy)
      [] e.kind = "raw"      -> ~Accepts(e.copy)
@@ -383,9 +419,21 @@ Rejects(D, e) ==
      [] e.kind = "item"     -> e.f \in Restricted(TKind(D, e)) \/ ~Accepts(e.copy)
      [] e.kind = "delitem"  -> e.f \in Restricted(TKind(D, e)) \/ ~HasKey(ExtraOf(D, e), e.f)
      [] e.kind = "wrongadd" -> TRUE
+     [] e.kind = "fault"    -> TRUE
      [] OTHER               -> FALSE
+\* the calls the format does not settle: a value with a look-alike of white space inside
+MayReject(D, e) ==
+   /\ ~DefRejects(D, e)
+   /\ CASE e.kind = "files"                           -> HasMay(e.pats)
+        [] e.kind = "entries"                         -> \E j \in 1..Len(e.pats) : HasMay(e.pats[j])
+        [] e.kind \in {"copy", "raw", "name", "item"} -> MayText(e.copy)
+        [] e.kind = "lic"                             -> HasMay(e.lic.syn.id)
+        [] OTHER                                      -> FALSE
+\* refused: for sure, or not settled and the implementation chose to refuse
+Rejects(D, e) == DefRejects(D, e) \/ (MayReject(D, e) /\ ~e.acc)
 RejectExc(D, e) ==
-   CASE e.kind = "files" /\ e.pats = <<>>                               -> "TypeError"
+   CASE e.kind = "fault"                                                -> "CallerError"
+     [] e.kind = "files" /\ e.pats = <<>>                               -> "TypeError"
      [] e.kind \in {"none", "wrongadd"}                                 -> "TypeError"
      [] e.kind \in {"item", "delitem"} /\ e.f \in Restricted(TKind(D, e)) -> "RestrictedFieldError"
      [] e.kind = "delitem"                                              -> "KeyError"
@@ -465,16 +513,24 @@ BadCallsOn(ps, i) ==
        R("delitem", "X-Missing", <<>>, <<>>)}
       \cup (IF ps[i].kind = "Files"
             THEN {R("files", "", <<>>, <<>>), R("files", "", <<Code(8, 1, 1), -2>>, <<>>), R("files", "", <<0, Code(8, 1, 2)>>, <<>>),
-                  R("none", "Files", <<>>, <<>>), R("none", "Copyright", <<>>, <<>>), R("item", "Files", <<>>, one)}
+                  R("none", "Files", <<>>, <<>>), R("none", "Copyright", <<>>, <<>>), R("item", "Files", <<>>, one),
+                  R("fault", "Files", <<>>, <<>>)}
                  \cup {R("copy", "", <<>>, MkText(8, 2, t)) : t \in BadTexts}
+                 \* not settled by the format: a pattern with a look-alike of white space inside -- both outcomes
+                 \cup {[R("files", "", <<Code(8, 1, 1), MayBase + Code(8, 1, 4)>>, <<>>) EXCEPT !.acc = a] : a \in BOOLEAN}
             ELSE {})
+      \* ... a synopsis / a custom single-line value with one
+      \cup {[EditRec("lic", i, 0, "", <<>>, <<>>, Lic(Ln(0, "txt", <<MayBase + Code(8, 3, 0)>>), Join(MkText(8, 4, <<"P">>))), NoPara)
+               EXCEPT !.acc = a] : a \in BOOLEAN}
+      \cup {[R("item", "X-Custom", <<>>, <<Ln(0, "txt", <<MayBase + Code(8, 9, 4)>>)>>) EXCEPT !.acc = a] : a \in BOOLEAN}
 BadCallsDoc ==
    LET R(kind, f, pats, copy) == EditRec(kind, 0, 0, f, pats, copy, NoLic, NoPara)
    IN {R("name", "", <<>>, MkText(8, 5, <<"P", "I">>)), R("raw", "Comment", <<>>, MkText(8, 7, <<"P", "P">>)),
        R("item", "X-Custom", <<>>, MkText(8, 9, <<"P", "E", "I">>)),
        R("entries", "Upstream-Contact", <<<<Code(8, 6, 1)>>, <<-2>>>>, <<>>), R("entries", "Files-Excluded", <<<<>>>>, <<>>),
        R("none", "Format", <<>>, <<>>), R("wrongadd", "Files", <<>>, <<>>), R("wrongadd", "License", <<>>, <<>>),
-       R("wrongadd", "Header", <<>>, <<>>)}
+       R("wrongadd", "Header", <<>>, <<>>),
+       R("fault", "Upstream-Contact", <<>>, <<>>), R("fault", "dump", <<>>, <<>>), R("fault", "parse", <<>>, <<>>)}
 BadEdits(ps) == IF Len(ps) \in RejEditAt
                 THEN BadCallsDoc \cup (IF ps = <<>> THEN {} ELSE BadCallsOn(ps, Len(ps)))
                 ELSE {}
@@ -605,7 +661,10 @@ FilesFirst    == Mode = "doc" => FilesFirstOf(paras)
 Memo          == IF ed = <<>> THEN NoMemo ELSE ed[1].memo
 RoundTrip     == Mode = "doc" => RoundTripOf(HdrOf(hk), paras, LoadM(Memo, DumpM(Memo, HdrOf(hk), paras)))
 Stable        == Mode = "doc" => StableOf(HdrOf(hk), paras, LoadM(Memo, DumpM(Memo, HdrOf(hk), paras)))
-HistoryKept   == Mode = "doc" => IF ed = <<>> THEN paras = Build(hist) /\ Len(paras) = Len(hist)
+\* (a call of the build phase that was carried out -- MayReject, acc -- changed the paragraph it was made on)
+HistEff       == IF rej = <<>> \/ rej[1].e.i = 0 \/ Rejects(DocOf(HdrOf(hk), hist), rej[1].e) THEN hist
+                 ELSE [hist EXCEPT ![rej[1].e.i] = AcceptedPara(@, rej[1].e)]
+HistoryKept   == Mode = "doc" => IF ed = <<>> THEN paras = Build(HistEff) /\ Len(paras) = Len(hist)
                                  ELSE ed[1].pre = Build(hist)
                                       /\ paras = (IF Rejects(DocOf(HdrOf(hk), ed[1].pre), ed[1].e) THEN ed[1].pre
                                                   ELSE ApplyCall(DocOf(HdrOf(hk), ed[1].pre), ed[1].e).paras)
@@ -620,11 +679,13 @@ EncHdr(h)  == [n |-> IF h.name = <<>> THEN <<>> ELSE <<EncStr(h.name[1])>>,
 EncDL(dl)  == [f |-> dl.k, x |-> EncLn(dl.x)]
 EncEdit(e) == [kind |-> e.kind, i |-> e.i, at |-> e.at, f |-> e.f, p |-> e.pats, c |-> EncStr(e.copy), l |-> EncLic(e.lic),
                a |-> EncPara(e.para),
-               \* what the specification says about the call: refused (and how) or carried out
-               rej |-> Rejects(DocOf(HdrOf(hk), IF ed = <<>> THEN paras ELSE ed[1].pre),
-                               IF e.i = 0 \/ ed # <<>> THEN e ELSE [e EXCEPT !.i = PosOf(paras, hist[e.i])]),
-               exc |-> RejectExc(DocOf(HdrOf(hk), IF ed = <<>> THEN paras ELSE ed[1].pre),
-                                 IF e.i = 0 \/ ed # <<>> THEN e ELSE [e EXCEPT !.i = PosOf(paras, hist[e.i])])]
+               \* what the specification says about the call: refused (and how) or carried out; may = the format
+               \* does not settle it and acc is the outcome this case is about
+               \* (the document a call of the build phase was made on is Build(hist): e.i counts the add_* calls)
+               acc |-> e.acc,
+               may |-> MayReject(DocOf(HdrOf(hk), IF ed = <<>> THEN hist ELSE ed[1].pre), e),
+               rej |-> Rejects(DocOf(HdrOf(hk), IF ed = <<>> THEN hist ELSE ed[1].pre), e),
+               exc |-> RejectExc(DocOf(HdrOf(hk), IF ed = <<>> THEN hist ELSE ed[1].pre), e)]
 DocEmit(h, d) == Emit => PrintT(<<"CASE", ToJson([hk   |-> hk,
                                                   hdr  |-> EncHdr(h),
                                                   ops  |-> [i \in 1..Len(hist) |-> EncPara(hist[i])],
